@@ -67,6 +67,11 @@ func NewRecord(recType RecordType, from, to sha.SHA1, name, email string, t time
 	offsetMinutes := offset / 60
 	timeDiff := fmt.Sprintf("%+03d%02d", offsetMinutes/60, offsetMinutes%60)
 
+	// a record is a single line, so only the first line of the message is journaled
+	if i := strings.Index(message, "\n"); i >= 0 {
+		message = message[:i]
+	}
+
 	return &record{
 		recType:  recType,
 		from:     from,
